@@ -65,6 +65,11 @@ def expected(kind, scope, v):
 PARAMS = [
     ('function-parameter', 'def f_({v}): pass\n', 1, 'W01'),
     ('function-kwonly-parameter', 'def f_(*, {v}=1): pass\n', 1, 'W01'),
+    ('function-posonly-parameter', 'def f_({v}, /, w_=0): return w_\n', 1, 'W01'),
+    ('lambda-posonly-parameter', 'print(lambda {v}, /: 1)\n', 1, 'W01'),
+    ('nested-function-posonly-parameter', 'def f_():\n    def g_({v}, /): pass\n    print(g_)\n', 2, 'W01'),
+    ('method-posonly-parameter', 'class K_:\n    def m_(self, {v}, /): pass\n', 2, None),
+    ('async-function-parameter', 'async def f_({v}): pass\n', 1, 'W01'),
     ('function-vararg', 'def f_(*{v}): pass\n', 1, 'W01'),
     ('function-kwarg', 'def f_(**{v}): pass\n', 1, 'W01'),
     ('method-parameter', 'class K_:\n    def m_(self, {v}): pass\n', 2, None),
